@@ -76,6 +76,21 @@ def eval_oil(case):
         elif not close(float(got), d):
             viol.append(V("dRs/dp", f"dgor_dpressure_Standing at p = {f} p_b = {got!r}; exact derivative of "
                           f"solution_gor_Standing = {d!r}", case=c, observed=float(got), expected=d, tol=REL))
+        if f == 0.5:  # the same pressure given as an integer (Python int, np.int64): dtype must not leak in
+            pi = int(p)
+            want = derivative(lambda q: oil.solution_gor_Standing(T, q, api, g, gor), float(pi))[1]
+            for q in (pi, np.int64(pi)):
+                got_i = float(oil.dgor_dpressure_Standing(T, q, api, g, gor))
+                if not close(got_i, want):
+                    viol.append(V("dRs/dp-integer-pressure", f"dgor_dpressure_Standing(p={q!r} as {type(q).__name__}) = "
+                                  f"{got_i!r}; exact derivative of the parent {want!r}", case=dict(c, p=pi), observed=got_i,
+                                  expected=want))
+                    break
+            wv = float(oil.db_o_dgor_Standing(int(T), int(api), g, int(gor)))
+            wd = derivative(lambda x: oil.b_o_bubblepoint_Standing(int(T), int(api), g, x), float(int(gor)))[1]
+            if not close(wv, wd):
+                viol.append(V("dBo/dRs-integer-arguments", f"db_o_dgor_Standing with integer arguments = {wv!r}; exact "
+                              f"derivative {wd!r}", case=c))
         for (tpc, ppc), (t_std, p_std) in itertools.product(PCS, STDS):
             evals += 1
             co = float(oil.oil_compressibility_Standing(T, p, api, g, gor, tpc, ppc, t_std, p_std))
